@@ -10,7 +10,6 @@
 
 use super::c03;
 use super::common::*;
-use super::faults::replica_ops;
 use crate::cenc::RNodeMsg;
 use crate::drv::*;
 use crate::env::{self, Image, BITFIELD, DATA, OPLOG, TREE};
@@ -609,25 +608,7 @@ pub fn run(tier: &str) -> i32 {
         ("replica-of-5-cleared-1", c03::shape(5, 0, Some(1)), if quick { 4 } else { 5 }),
         ("replica-of-6-batch", c03::shape(6, 1, None), if quick { 4 } else { 5 }),
     ] {
-        let af = |m: &SysModel, _d: usize| {
-            // well-formed block/upgrade requests + a few hash requests + writer growth, so that
-            // upgrade-only and nodes-only entries are left pending too
-            let mut v = replica_ops(m, false);
-            if let Some(r) = m.r.as_ref() {
-                if r.len == m.w.len() && r.len > 0 {
-                    for j in [0u64, 1, 2 * (r.len - 1)] {
-                        if scheme::right_span(j) < 2 * r.len {
-                            v.push(Op::RSync(Req { hash: Some(j), ..Default::default() }));
-                        }
-                    }
-                }
-            }
-            if m.w.len() < 8 {
-                v.push(Op::Append(Blk::P(2, 4)));
-            }
-            v.dedup();
-            v
-        };
+        let af = |m: &SysModel, _d: usize| super::faults::replica_ops_growth(m, 8);
         let e = E1 { prop: "C06", depth, with_replica: true, prefix: prefix.clone(), alphabet: &af, threads: nthreads(), cache: CacheCfg::Off, altered: None };
         let mk = || ReaderVisitor { rep: &rep, stats: &stats, states: &states, local: BTreeMap::new() };
         let (vs, leaves) = e.run(&mk);
